@@ -8,6 +8,7 @@
 //! impl : {"gather": {"tables":[{"name","columns":[…]|null,"gather_sql"}]} | {"err":kind,"msg"},
 //!         "refused": why plan_distributed refused (text),
 //!         "optimized": exported optimized plan (the plan `collect_scans` walks; format lean/Driver/PlanJson.lean),
+//!         "cte_optimized": the optimized plans of the case's "cte_sqls" (each top-level CTE definition behind its predecessors),
 //!         "bound": exported bound plan of the ORIGINAL statement,
 //!         "schemas": {table:[column names in provider schema order]},
 //!         "runs": {"local": single-node outcome, "gathered": `execute_gathered(plan_gather(sql))`,
@@ -43,6 +44,11 @@ pub fn run_case(case: &Value) -> Value {
     }
     let optimized = guarded(std::panic::AssertUnwindSafe(|| plan_or_err(env.base.optimized_plan(sql))));
     let bound = guarded(std::panic::AssertUnwindSafe(|| plan_or_err(env.base.logical_plan(sql))));
+    // since /repo 6d3344d plan_gather also plans every top-level CTE definition on its own (behind the definitions before it)
+    let empty = vec![];
+    let derived: Vec<Value> = if case["cte_sqls"].is_array() { vec![] } else { cte_sqls_of_text(sql).into_iter().map(Value::String).collect() };
+    let cte_optimized: Vec<Value> = case["cte_sqls"].as_array().unwrap_or(if case["cte_sqls"].is_array() { &empty } else { &derived }).iter()
+        .map(|c| guarded(std::panic::AssertUnwindSafe(|| plan_or_err(env.base.optimized_plan(c.as_str().unwrap_or(""))))) ).collect();
     let mut runs = serde_json::Map::new();
     runs.insert("local".into(), run_local(&env, sql));
     let gather = match gp {
@@ -57,7 +63,39 @@ pub fn run_case(case: &Value) -> Value {
         Err(_) => json!({"panic": "plan_gather"}),
     };
     runs.insert("full".into(), run_full_gather(&env, sql, n, self_ix));
-    json!({"gather": gather, "refused": refused, "optimized": optimized, "bound": bound, "schemas": Value::Object(schemas), "runs": Value::Object(runs)})
+    json!({"gather": gather, "refused": refused, "optimized": optimized, "cte_optimized": cte_optimized, "bound": bound, "schemas": Value::Object(schemas), "runs": Value::Object(runs)})
+}
+
+/// the statements `plan_gather` plans for the top-level CTE definitions: definition i behind the definitions before it
+fn cte_sqls(q: &crate::fams::fam_sql::sqlgen::ast::QueryExpr) -> Vec<String> {
+    (0..q.with.len()).map(|i| {
+        let prefix = if i == 0 { String::new() } else { format!("WITH {} ", q.with[..i].iter().map(|(n, d)| format!("{} AS ({})", n, d.sql())).collect::<Vec<_>>().join(", ")) };
+        format!("{}{}", prefix, q.with[i].1.sql())
+    }).collect()
+}
+
+/// the same for a case that carries only the statement text (older corpus files): top-level `WITH n AS (…), m AS (…) body`
+fn cte_sqls_of_text(sql: &str) -> Vec<String> {
+    let Some(mut rest) = sql.strip_prefix("WITH ") else { return vec![] };
+    let mut defs: Vec<(String, String)> = vec![];
+    loop {
+        let Some(p) = rest.find(" AS (") else { break };
+        let name = rest[..p].to_string();
+        let body = &rest[p + 5..];
+        let (mut depth, mut in_str, mut end) = (1usize, false, None);
+        for (i, c) in body.char_indices() {
+            if in_str { if c == '\'' { in_str = false; } continue; }
+            match c { '\'' => in_str = true, '(' => depth += 1, ')' => { depth -= 1; if depth == 0 { end = Some(i); break; } } _ => {} }
+        }
+        let Some(e) = end else { break };
+        defs.push((name, body[..e].to_string()));
+        rest = &body[e + 1..];
+        match rest.strip_prefix(", ") { Some(r) => rest = r, None => break }
+    }
+    (0..defs.len()).map(|i| {
+        let prefix = if i == 0 { String::new() } else { format!("WITH {} ", defs[..i].iter().map(|(n, d)| format!("{} AS ({})", n, d)).collect::<Vec<_>>().join(", ")) };
+        format!("{}{}", prefix, defs[i].1)
+    }).collect()
 }
 
 pub fn main(o: &Opts) {
@@ -94,7 +132,7 @@ pub fn main(o: &Opts) {
         let nn = *r.pick(&[1usize, 2, 2, 3, 3, 4, 5, 8]);
         let self_ix = if r.chance(1, 4) { None } else { Some(r.below(nn as u64) as usize) };
         let case = json!({"prop": "C45", "mode": "meta", "sql": g.q.sql(), "plan": g.q.plan(0), "tables": cat.tables_json(), "cat": cat.meta_json(),
-                          "tags": g.tags, "engine_defined": g.engine_defined, "layout": layout, "n": nn, "self": self_ix});
+                          "tags": g.tags, "engine_defined": g.engine_defined, "layout": layout, "n": nn, "self": self_ix, "cte_sqls": cte_sqls(&g.q)});
         // only statements that take the gather path belong to this property
         let takes_gather = match env_for(&case) {
             Ok(env) => matches!(std::panic::catch_unwind(std::panic::AssertUnwindSafe(|| plan_distributed(&env.base, case["sql"].as_str().unwrap_or("")))), Ok(Err(QueryError::NotImplemented(_)))),
